@@ -235,6 +235,9 @@ func runEscaperProperty(o *Options, prop string, forms []EscForm, oracle func(Es
 		reqs[i] = EReq{Fn: c.Form.Fn, Itr: c.Form.Itr, In: c.In}
 	}
 	mout, mok, err := RunDriver(o.Driver, reqs)
+	if err == nil {
+		err = CrossCheck(o, res, "esc", reqs, mout, mok)
+	}
 	if err != nil {
 		res.InfraError = err.Error()
 		return res
@@ -379,6 +382,9 @@ func validateDecoder(o *Options, res *Result, rng *RNG, fn int, ref func([]byte)
 		dreqs[i] = EReq{Fn: fn, Itr: 0, In: in}
 	}
 	dout, dok, err := RunDriver(o.Driver, dreqs)
+	if err == nil {
+		err = CrossCheck(o, res, fmt.Sprintf("dec%d", fn), dreqs, dout, dok)
+	}
 	if err != nil {
 		return err
 	}
